@@ -36,7 +36,9 @@ def cfgs_of(spec, only=None):
 class Harness:
     """one spec compiled for a set of configurations"""
 
-    def __init__(self, name, cfgs=None, switch=0, mode='plain', variant='functor'):
+    def __init__(self, name, cfgs=None, switch=0, mode='plain', variant='functor', extra=(), libs=()):
+        self.extra = tuple(extra)
+        self.libs = tuple(libs)
         self.name = name
         self.spec0 = load_spec(name)
         self.cfgs = cfgs_of(self.spec0, cfgs)
@@ -53,7 +55,7 @@ class Harness:
         out = []
         for c in self.cfgs:
             out.append(dict(name=self.spec0['name'], src=gen_cpp.generate(self.specs[c], self.variant), cfg=c,
-                            mode=self.mode, switch=self.switch, harness=self))
+                            mode=self.mode, switch=self.switch, harness=self, extra=self.extra, libs=self.libs))
         return out
 
 
@@ -152,9 +154,15 @@ def match_known(known, prop, family, rule, signature):
     for k in known.get('known', []):
         if k['property'] != prop:
             continue
-        if k.get('family') and k['family'] != family:
+        fams = k.get('family')
+        if isinstance(fams, str):
+            fams = [fams]
+        if fams and family not in fams:
             continue
-        if k.get('rule') and not rule.startswith(k['rule']):
+        rules = k.get('rule')
+        if isinstance(rules, str):
+            rules = [rules]
+        if rules and not any(rule.startswith(x) for x in rules):
             continue
         sigs = k.get('signature')
         if isinstance(sigs, str):
